@@ -29,8 +29,18 @@ def vscale(tr, var):
 
 
 def n_inst(tr):
-    """number of completely recorded instants"""
-    return min(len(tr['els'][0]['angular position']), len(tr['time']))
+    """number of completely recorded instants that can be judged: a history that blows up numerically (an unstable
+    time step on numpy scalars overflows to inf where Python floats raise OverflowError) is judged up to there"""
+    n = min(len(tr['els'][0]['angular position']), len(tr['time']))
+    if '_finite_n' not in tr:
+        m = n
+        for j in range(n):
+            if any(math.isinf(x) or abs(x) > 1e150 for e in tr['els'] for v in sim.BASE6 for x in e.get(v, [])[j:j + 1]
+                   if isinstance(x, float) and not math.isnan(x)):
+                m = j
+                break
+        tr['_finite_n'] = m
+    return min(n, tr['_finite_n'])
 
 
 # ---------------------------------------------------------------------------------------------
@@ -1222,6 +1232,9 @@ def run_C16(ctx):
             # threshold exactly equal to a reading, in the reading's own unit: the comparison is exact, so
             # the five operators are told apart (>= vs >, <= vs <, ==)
             k = rng.randrange(1, len(series))
+            zeros = [i for i in range(1, len(series)) if series[i] == 0]
+            if zeros and rng.random() < 0.6:
+                k = rng.choice(zeros)       # a reading of exactly zero against a threshold of exactly zero
             var = {'enc': 'angular position', 'tac': 'angular speed', 'amp': 'electric current'}[st['sensor']]
             q = b0.E[st['idx'] % len(b0.E) if st['sensor'] != 'amp' else 0].time_variables[var][k]
             st['thr'] = [q.value, q.unit]
@@ -1328,7 +1341,7 @@ def run_C17(ctx):
         for _k in range(rng.randint(1, 4)):
             r = rng.random()
             if r < 0.6 or not ops:
-                op, _, nn = gen.run_op(rng, dt_si=dt, steps=(2, 7), unit='sec')
+                op, _, nn = gen.run_op(rng, dt_si=dt, steps=(2, 7), unit=rng.choice(['sec', 'sec', 'ms', 'min']))
                 if rng.random() < 0.3:
                     op['stop'] = random_stop(rng, spec)
                 ops.append(op)
